@@ -13,6 +13,7 @@ RULE = ("G-int arrangements with communication kernels (nccl*Kernel names) and c
         "time with >= 1 comm running, x100, compared after round(.,2); plus the merge_kernel_intervals contract. Non-trivial: "
         "overlap strictly between 0 and 100 on some rank. Distinct = hash of the files.")
 ASSUMPTIONS = ["every rank has communication time > 0 (else the ratio divides by zero: out of regime)", "type by the documented name rules"]
+FLOAT_KEYS = ["files"]          # fractional-time-unit workload class (hv/shard.py)
 PLAN = {"quick": {"shards": 16, "cases": 960, "timeout": 600}, "thorough": {"shards": 16, "cases": 10000, "timeout": 3000}}
 FLOORS = {"quick": {"distinct_nontrivial": 120, "ranks_judged": 400, "merge_kernel_intervals.post": 800, "with_touching": 100, "with_zero_length": 80},
           "thorough": {"distinct_nontrivial": 2500, "ranks_judged": 8000, "merge_kernel_intervals.post": 16000, "with_touching": 2000, "with_zero_length": 1600}}
